@@ -96,7 +96,15 @@ fn gen_set(g: &mut G) -> Set {
         6 => Set::Proxy(g.chance(1, 2)),
         7 => Set::Charset(g.below(3) as u8),
         8 => Set::Compression(g.chance(1, 2)),
-        _ => Set::Header((*g.pick(&["Accept", "accept", "User-Agent", "X-A", "x-a", "X-B", "Accept-Encoding"])).to_string(), (*g.pick(&["v1", "v2", "text/html", "agent/9", "br", ""])).to_string(), g.chance(1, 3)),
+        _ => Set::Header(
+            (*g.pick(&[
+                "Accept", "accept", "User-Agent", "X-A", "x-a", "X-B", "Accept-Encoding", "Accept", "User-Agent", "X-A", "Accept-Encoding",
+                // names the library has no business with: no setting depends on any of them
+                "Range", "If-Range", "Authorization", "Cookie", "Content-Type", "If-None-Match", "If-Match", "If-Modified-Since", "Referer", "Origin", "Cache-Control", "Pragma", "TE", "Upgrade", "Via",
+                "Accept-Language", "Accept-Charset", "Accept-Ranges", "Content-Encoding", "Content-Language", "Content-Range", "Date", "DNT", "Forwarded", "From", "Max-Forwards", "Proxy-Authorization",
+                "Trailer", "Warning", "X-Forwarded-For", "Upgrade-Insecure-Requests", "Sec-WebSocket-Key", "Keep-Alive", "Proxy-Connection", "Expect", "Content-Disposition", "Link", "Priority",
+            ]))
+            .to_string(), (*g.pick(&["v1", "v2", "text/html", "agent/9", "br", ""])).to_string(), g.chance(1, 3)),
     }
 }
 
@@ -192,7 +200,16 @@ fn apply_session(s: &mut attohttpc::Session, set: &Set) {
         Set::Compression(v) => s.allow_compression(*v),
         Set::Header(n, v, append) => {
             let name = attohttpc::header::HeaderName::from_bytes(n.as_bytes()).unwrap();
-            if *append {
+            if v.len() % 3 == 0 {
+                // (no draw) a typed value marked sensitive: same field on the wire
+                let mut hv = attohttpc::header::HeaderValue::from_str(v).unwrap();
+                hv.set_sensitive(true);
+                if *append {
+                    s.header_append(name, hv)
+                } else {
+                    s.header(name, hv)
+                }
+            } else if *append {
                 s.header_append(name, v.as_str())
             } else {
                 s.header(name, v.as_str())
@@ -214,7 +231,16 @@ fn apply_builder(b: attohttpc::RequestBuilder, set: &Set) -> attohttpc::RequestB
         Set::Compression(v) => b.allow_compression(*v),
         Set::Header(n, v, append) => {
             let name = attohttpc::header::HeaderName::from_bytes(n.as_bytes()).unwrap();
-            if *append {
+            if v.len() % 3 == 0 {
+                // (no draw) a typed value marked sensitive: same field on the wire
+                let mut hv = attohttpc::header::HeaderValue::from_str(v).unwrap();
+                hv.set_sensitive(true);
+                if *append {
+                    b.header_append(name, hv)
+                } else {
+                    b.header(name, hv)
+                }
+            } else if *append {
                 b.header_append(name, v.as_str())
             } else {
                 b.header(name, v.as_str())
